@@ -543,3 +543,75 @@ Definition load (reg : list hdr) : option tables :=
         Some (mkTables mins (S n3) n5 (table_of_ext exts))
       end end end end end
   end.
+
+(* ------------------------------------------------------------------ token table: physical blocks and entries *)
+(* frac/disk_blocks_writer.go writeTokensBlocks (table entries, StartIndex, BlockIndex, FlushForced at the
+   start of a field larger than a block, FlushIfNeeded above 16 KiB) over the blocks of
+   getTokensBlocksGenerator; frac/token/table.go GetEntryByTID; frac/token/block_loader.go GetValByTID.
+   A token is identified by its TID (its rank in the (field, value) order + 1); a field is the list of the
+   byte lengths of its tokens in dictionary order. *)
+Record tentry := mkTE { te_tid : N; te_cnt : N; te_sidx : N; te_blk : N }.
+Record twst := mkTW {
+  tw_buf : list N;                 (* TIDs packed into the physical block being formed *)
+  tw_bytes : N;                    (* len(former.Packer().Data) *)
+  tw_sidx : N;                     (* startIndex *)
+  tw_blk : N;                      (* writer.GetBlockIndex() *)
+  tw_blocks : list (N * list N);   (* written physical blocks (index, TIDs), REVERSED *)
+  tw_entries : list tentry         (* REVERSED *)
+}.
+Definition tw_init : twst := mkTW [] 0 0 1 [] [].   (* block 0 is the info block *)
+
+(* BlockFormer.FlushForced *)
+Definition tw_flush (w : twst) : twst :=
+  if (tw_bytes w =? 0)%N then w
+  else mkTW [] 0 (tw_sidx w) (tw_blk w + 1) ((tw_blk w, tw_buf w) :: tw_blocks w) (tw_entries w).
+Definition tw_reset (w : twst) : twst :=
+  mkTW (tw_buf w) (tw_bytes w) 0 (tw_blk w) (tw_blocks w) (tw_entries w).
+
+Fixpoint tid_seq (s : N) (n : nat) : list N :=
+  match n with 0 => [] | S k => s :: tid_seq (s + 1) k end.
+Definition tok_len (lens : list N) (tid : N) : N := nth (N.to_nat (tid - 1)) lens 0%N.
+(* DiskTokensBlock.pack: [len uint32][bytes] per token, then the 0xFFFFFFFF terminator *)
+Definition tblock_bytes (lens : list N) (s : N) (n : N) : N :=
+  (fold_left (fun a t => a + 4 + tok_len lens t) (tid_seq s (N.to_nat n)) 0 + 4)%N.
+
+(* push of writeTokensBlocks *)
+Definition tw_push (lens : list N) (total : N) (w : twst) (b : tblock) : twst :=
+  let '(s, n, first) := b in
+  let w1 := if first && (regular_block_size <? total)%N then tw_reset (tw_flush w) else w in
+  let e := mkTE s n (tw_sidx w1) (tw_blk w1) in
+  let w2 := mkTW (tw_buf w1 ++ tid_seq s (N.to_nat n)) (tw_bytes w1 + tblock_bytes lens s n)
+                 (tw_sidx w1 + n) (tw_blk w1) (tw_blocks w1) (e :: tw_entries w1) in
+  if (regular_block_size <? tw_bytes w2)%N then tw_reset (tw_flush w2) else w2.
+
+Definition field_size (f : list N) : N := fold_left N.add f 0%N.
+
+Fixpoint tw_fields (lens : list N) (fields : list (list N)) (bss : list (list tblock)) (w : twst) : twst :=
+  match fields, bss with
+  | f :: fr, bs :: br => tw_fields lens fr br (fold_left (tw_push lens (field_size f)) bs w)
+  | _, _ => w
+  end.
+
+(* the token table (entries in file order) and the physical token blocks of a dictionary *)
+Definition tok_table (fields : list (list N)) : res (list tentry * list (N * list N)) :=
+  match tok_gen (map (fun f => (field_size f, N.of_nat (length f))) fields) with
+  | Ok bss => let w := tw_flush (tw_fields (concat fields) fields bss tw_init) in
+              Ok (rev (tw_entries w), rev (tw_blocks w))
+  | Panic => Panic
+  | OutOfFuel => OutOfFuel
+  end.
+
+(* Table.GetEntryByTID *)
+Definition te_covers (e : tentry) (tid : N) : bool := ((te_tid e <=? tid) && (tid <? te_tid e + te_cnt e))%N.
+Definition find_entry (es : list tentry) (tid : N) : option tentry := find (fun e => te_covers e tid) es.
+Fixpoint blk_get (bl : list (N * list N)) (i : N) : option (list N) :=
+  match bl with [] => None | (k, b) :: r => if (k =? i)%N then Some b else blk_get r i end.
+(* sealedTokenIndex.GetValByTID: the token (as its TID) found for tid *)
+Definition val_of_tid (es : list tentry) (bl : list (N * list N)) (tid : N) : option N :=
+  match find_entry es tid with
+  | None => None
+  | Some e => match blk_get bl (te_blk e) with
+              | None => None
+              | Some b => nth_error b (N.to_nat (te_sidx e + tid - te_tid e))
+              end
+  end.
